@@ -145,6 +145,6 @@ func verifC08Checks(args []vsx) vsx {
 	case strings.Contains(err.Error(), "ambiguous"):
 		return vS("ambiguous")
 	default:
-		return vL(vS("other-error"), vS(err.Error()))
+		return vL(vS("bad-case"), vS(err.Error())) // not an error of the validation block: ill-formed scenario
 	}
 }
